@@ -183,3 +183,178 @@ fn c15_entry_macos() {
 // the reach the Linux/AArch64 allocator contract guarantees (same constants as contracts/verus_alloc.py)
 pub(crate) const A64_REACH_LO: i128 = -0x8000000;
 pub(crate) const A64_REACH_HI: i128 = 0x7FFFFFF;
+
+// ------------------------------------------------------------------------------------------------
+// Top level of the AArch64 back end, checked against its callees' contracts (recorders): what is
+// read, allocated, generated and patched belongs to THIS installation — also when the same entry
+// address was patched before with different code behind it (the back end has no licence to remember).
+
+static mut T_SRC: usize = 0;
+static mut T_ORIG: [u8; 12] = [0; 12];
+static mut T_JIT: usize = 0;
+static mut T_ALLOC_ANCHOR: usize = 0;
+static mut T_ALLOC_SIZE: usize = 0;
+static mut T_GEN_JIT: usize = 0;
+static mut T_GEN_TARGET: usize = 0;
+static mut T_GEN_KIND: u8 = 0; // 1 = abs trampoline, 2 = boolean stub
+static mut T_GEN_VALUE: bool = false;
+static mut T_AP_SRC: usize = 0;
+static mut T_AP_JIT: usize = 0;
+static mut T_AP_JIT_SIZE: usize = 0;
+static mut T_AP_ORIG: [u8; 12] = [0; 12];
+static mut T_AP_ORIG_LEN: usize = 0;
+static mut T_SEQ: u8 = 0;
+static mut T_AP_AT: u8 = 0;
+static mut T_GEN_AT: u8 = 0;
+
+/// contract of `read_bytes(ptr, len)`: the `len` bytes currently at `ptr` — T_ORIG when ptr is the
+/// function under test, unspecified bytes anywhere else
+unsafe fn top_read_bytes(ptr: *const u8, len: usize) -> Vec<u8> {
+    let junk: [u8; 12] = kani::any();
+    let at_src = ptr as usize == T_SRC;
+    let mut v = Vec::with_capacity(12);
+    let mut i = 0;
+    while i < 12 {
+        if i < len {
+            v.push(if at_src { T_ORIG[i] } else { junk[i] });
+        }
+        i += 1;
+    }
+    v
+}
+/// contract of `allocate_jit_memory` (success case): some fresh mapping, address of the OS's choosing
+fn top_allocate(src: &FuncPtrInternal, code_size: usize) -> *mut u8 {
+    unsafe {
+        T_ALLOC_ANCHOR = src.as_ptr() as usize;
+        T_ALLOC_SIZE = code_size;
+        T_JIT as *mut u8
+    }
+}
+fn top_gen_abs(jit_ptr: *mut u8, target: *const ()) {
+    unsafe {
+        T_SEQ += 1;
+        T_GEN_AT = T_SEQ;
+        T_GEN_KIND = 1;
+        T_GEN_JIT = jit_ptr as usize;
+        T_GEN_TARGET = target as usize;
+    }
+}
+fn top_gen_bool(jit_ptr: *mut u8, value: bool) {
+    unsafe {
+        T_SEQ += 1;
+        T_GEN_AT = T_SEQ;
+        T_GEN_KIND = 2;
+        T_GEN_JIT = jit_ptr as usize;
+        T_GEN_VALUE = value;
+    }
+}
+fn top_apply(src: FuncPtrInternal, jit_memory: *mut u8, jit_size: usize, original_bytes: &[u8]) -> PatchGuard {
+    unsafe {
+        T_SEQ += 1;
+        T_AP_AT = T_SEQ;
+        T_AP_SRC = src.as_ptr() as usize;
+        T_AP_JIT = jit_memory as usize;
+        T_AP_JIT_SIZE = jit_size;
+        T_AP_ORIG_LEN = original_bytes.len();
+        let mut i = 0;
+        while i < 12 {
+            if i < original_bytes.len() {
+                T_AP_ORIG[i] = original_bytes[i];
+            }
+            i += 1;
+        }
+    }
+    PatchGuard::new(src.as_ptr() as *mut u8, original_bytes.to_vec(), 12, jit_memory, jit_size)
+}
+
+fn top_world(src: usize) {
+    unsafe {
+        T_SRC = src;
+        T_ORIG = kani::any();
+        T_JIT = kani::any();
+        kani::assume(T_JIT != 0);
+        T_SEQ = 0;
+        T_AP_AT = 0;
+        T_GEN_AT = 0;
+        T_GEN_KIND = 0;
+    }
+}
+
+fn top_check(src: usize, g: &PatchGuard, want_kind: u8, want_size: usize) {
+    unsafe {
+        let j: usize = kani::any();
+        kani::assume(j < 12);
+        crate::obligations! {
+            (T_AP_ORIG_LEN == 12 && T_AP_ORIG[j] == T_ORIG[j]) => "OBL:C02.save.a64.top: the original bytes handed to the entry patcher are the 12 bytes that are at the function's entry at THIS installation",
+            (T_AP_SRC == src && g_func(g) == src) => "OBL:C01.a64.top.entry: the entry that is patched is the function given",
+            (T_ALLOC_ANCHOR == src) => "OBL:C11.alloc.anchor.a64: the trampoline is allocated near the function being patched",
+            (T_AP_JIT == T_JIT && T_AP_JIT_SIZE == T_ALLOC_SIZE && T_ALLOC_SIZE == want_size) => "OBL:C12.own.a64.top: the guard is given exactly the mapping (address, length) that was allocated for this installation",
+            (T_GEN_KIND == want_kind && T_GEN_JIT == T_JIT) => "OBL:C01.a64.top.tramp: the trampoline of the requested kind is generated into the mapping allocated for this installation",
+            (T_GEN_AT != 0 && T_GEN_AT < T_AP_AT) => "OBL:C01.a64.top.order: the trampoline is complete before the entry is redirected to it",
+        }
+    }
+}
+
+#[cfg(not(verif_macos))]
+#[kani::proof]
+#[kani::unwind(14)]
+#[kani::stub(crate::injector_core::common::read_bytes, top_read_bytes)]
+#[kani::stub(crate::injector_core::common::allocate_jit_memory, top_allocate)]
+#[kani::stub(crate::injector_core::patch_arm64::generate_will_execute_jit_code_abs, top_gen_abs)]
+#[kani::stub(crate::injector_core::patch_arm64::generate_will_return_boolean_jit_code, top_gen_bool)]
+#[kani::stub(crate::injector_core::patch_arm64::apply_branch_patch, top_apply)]
+fn c02_a64_top() {
+    let src: usize = kani::any();
+    let fake: usize = kani::any();
+    kani::assume(src != 0 && fake != 0);
+    top_two_lives(src, fake);
+}
+
+/// the same two lifetimes at one concrete entry address (bounded stand-in for "any history": depth 2,
+/// one address) — a back end that keeps per-address state in a map is decidable here, where the
+/// fully symbolic address makes the map intractable
+#[cfg(not(verif_macos))]
+#[kani::proof]
+#[kani::unwind(14)]
+#[kani::stub(crate::injector_core::common::read_bytes, top_read_bytes)]
+#[kani::stub(crate::injector_core::common::allocate_jit_memory, top_allocate)]
+#[kani::stub(crate::injector_core::patch_arm64::generate_will_execute_jit_code_abs, top_gen_abs)]
+#[kani::stub(crate::injector_core::patch_arm64::generate_will_return_boolean_jit_code, top_gen_bool)]
+#[kani::stub(crate::injector_core::patch_arm64::apply_branch_patch, top_apply)]
+fn c02_a64_top_fixed_addr() {
+    let fake: usize = kani::any();
+    kani::assume(fake != 0);
+    top_two_lives(0x4000, fake);
+}
+
+fn top_two_lives(src: usize, fake: usize) {
+    // an earlier installation on the same entry, of either kind, with other code behind it
+    top_world(src);
+    let first_bool: bool = kani::any();
+    let g0 = if first_bool {
+        PatchArm64::replace_function_return_boolean(fp_int(src), kani::any())
+    } else {
+        PatchArm64::replace_function_with_other_function(fp_int(src), fp_int(fake))
+    };
+    top_check(src, &g0, if first_bool { 2 } else { 1 }, if first_bool { 8 } else { 20 });
+    std::mem::forget(g0);
+    // the installation under examination
+    top_world(src);
+    let second_bool: bool = kani::any();
+    let v: bool = kani::any();
+    let g = if second_bool {
+        PatchArm64::replace_function_return_boolean(fp_int(src), v)
+    } else {
+        PatchArm64::replace_function_with_other_function(fp_int(src), fp_int(fake))
+    };
+    top_check(src, &g, if second_bool { 2 } else { 1 }, if second_bool { 8 } else { 20 });
+    unsafe {
+        crate::obligations! {
+            (second_bool || T_GEN_TARGET == fake) => "OBL:C01.a64.top.fake: the trampoline is generated for the fake given",
+            (!second_bool || T_GEN_VALUE == v) => "OBL:C10.a64.top.value: the boolean stub is generated for the value given",
+        }
+    }
+    std::mem::forget(g);
+    kani::cover!(first_bool && !second_bool, "COVER:bool-then-fake");
+    kani::cover!(true, "COVER:end");
+}
